@@ -8,6 +8,7 @@ import (
 	"github.com/antonmedv/expr/vm"
 
 	"verif/mc/gen"
+	"verif/mc/guard"
 	"verif/mc/henv"
 	"verif/mc/lib"
 	"verif/mc/par"
@@ -130,6 +131,7 @@ func c01(r *report.Run) {
 
 // runSlices enumerates every slice size by size (smallest first) on all cores.
 func runSlices(r *report.Run, slices []*slice, f func(sl *slice, e *gen.Expr, order int64) (int64, []string)) {
+	guard.Start(r)
 	var exprs, runs int64
 	outcomes := map[string]bool{}
 	var mu sync.Mutex
@@ -157,9 +159,11 @@ func runSlices(r *report.Run, slices []*slice, f func(sl *slice, e *gen.Expr, or
 					continue
 				}
 				b := base
-				par.For(int(sp.Total), func(i int) {
+				par.ForW(int(sp.Total), func(w, i int) {
 					e := sp.At(int64(i))
+					guard.Enter(w, e.String())
 					rn, outs := f(sl, e, b+int64(i))
+					guard.Leave(w)
 					atomic.AddInt64(&runs, rn)
 					if len(outs) > 0 {
 						mu.Lock()
